@@ -258,7 +258,7 @@ func (p *Parser) led(tokenType tokType, node ASTNode) (ASTNode, error) {
 		var args []ASTNode
 		if p.current() != tRparen {
 			for {
-				expression, err := p.parseExpression(0)
+				expression, err := p.parseFunctionArg()
 				if err != nil {
 					return ASTNode{}, err
 				}
@@ -398,11 +398,7 @@ func (p *Parser) nud(token token) (ASTNode, error) {
 	case tCurrent:
 		return ASTNode{nodeType: ASTCurrentNode}, nil
 	case tExpref:
-		expression, err := p.parseExpression(bindingPowers[tExpref])
-		if err != nil {
-			return ASTNode{}, err
-		}
-		return ASTNode{nodeType: ASTExpRef, children: []ASTNode{expression}}, nil
+		return ASTNode{}, p.syntaxErrorToken("Expression references (&) are only valid as function arguments", token)
 	case tNot:
 		expression, err := p.parseExpression(bindingPowers[tNot])
 		if err != nil {
@@ -423,6 +419,20 @@ func (p *Parser) nud(token token) (ASTNode, error) {
 	}
 
 	return ASTNode{}, p.syntaxErrorToken("Invalid token: "+token.tokenType.String(), token)
+}
+
+// parseFunctionArg parses one function argument: an expression or an
+// expression reference (&expression).
+func (p *Parser) parseFunctionArg() (ASTNode, error) {
+	if p.current() != tExpref {
+		return p.parseExpression(0)
+	}
+	p.advance()
+	expression, err := p.parseExpression(bindingPowers[tExpref])
+	if err != nil {
+		return ASTNode{}, err
+	}
+	return ASTNode{nodeType: ASTExpRef, children: []ASTNode{expression}}, nil
 }
 
 func (p *Parser) parseMultiSelectList() (ASTNode, error) {
